@@ -192,7 +192,7 @@ func (g *gen) ref(kind, file string, depth int, noSelf bool) M {
 	if fromDoc {
 		choices = append(choices, "same-doc", "same-doc")
 	}
-	if !g.cfg.NoWholeFile && kind != "callback" {
+	if !g.cfg.NoWholeFile {
 		choices = append(choices, "whole-file")
 	}
 	if !g.cfg.NoDeep && (kind == "schema" || kind == "header" || kind == "response") {
@@ -204,11 +204,39 @@ func (g *gen) ref(kind, file string, depth int, noSelf bool) M {
 		g.feat["form:same-doc"]++
 		return M{"$ref": "#/components/" + Section[kind] + "/" + n}
 	case "whole-file":
-		ef := g.elementFile(kind, file, depth)
+		ef := g.reuseElement(kind, file)
+		if ef == "" {
+			ef = g.elementFile(kind, file, depth)
+		} else {
+			g.feat["whole-file:reused"]++
+		}
 		g.feat["form:whole-file"]++
 		g.feat["external"]++
 		return M{"$ref": g.relSpelling(file, ef)}
 	case "deep":
+		if kind == "schema" && g.chance(3, "deepelem") {
+			// a pointer into a single-element file, which other references may name as a whole
+			ef := g.reuseElement("schema", file)
+			if ef == "" {
+				ef = g.elementFile("schema", file, depth)
+			}
+			if el := g.elems[ef]; el != nil && len(el) > 0 {
+				if _, isRef := el["$ref"]; !isRef {
+					props, _ := el["properties"].(M)
+					if props == nil {
+						props = M{}
+						el["properties"] = props
+					}
+					if _, ok := props["inner"]; !ok {
+						props["inner"] = g.leaf("schema", ef)
+					}
+					g.feat["form:deep-pointer"]++
+					g.feat["deep:into-element-file"]++
+					g.feat["external"]++
+					return M{"$ref": g.relSpelling(file, ef) + "#/properties/inner"}
+				}
+			}
+		}
 		tf := g.pickDoc(file)
 		var ptr string
 		switch kind {
@@ -307,6 +335,29 @@ func (g *gen) elementFile(kind, from string, depth int) string {
 	g.elems[name] = M{} // reserve
 	g.elems[name] = g.object(kind, name, depth-1)
 	return name
+}
+
+// reuseElement picks, sometimes, an existing finished single-element file of the kind (never the
+// file the reference sits in).
+func (g *gen) reuseElement(kind, from string) string {
+	var cands []string
+	for _, name := range jv.Keys(anyOf(g.elems)) {
+		if name != from && strings.Contains(name, "/el_"+kind) && len(g.elems[name]) > 0 {
+			cands = append(cands, name)
+		}
+	}
+	if len(cands) == 0 || !g.chance(2, "reuseel") {
+		return ""
+	}
+	return rapid.SampledFrom(cands).Draw(g.t, "whichel")
+}
+
+func anyOf(m map[string]M) map[string]any {
+	out := make(map[string]any, len(m))
+	for k, v := range m {
+		out[k] = v
+	}
+	return out
 }
 
 // slot returns an inline object or a reference for a position of the given kind.
